@@ -79,6 +79,7 @@ FUNCTIONS = [
     ('isotp/protocol.py', 'TransportLayerLogic', 'load_params'),
     ('isotp/protocol.py', 'TransportLayerLogic.SendRequest', 'complete'),
     ('isotp/tools.py', 'FiniteByteGenerator', '__init__'),
+    ('isotp/tools.py', 'FiniteByteGenerator', 'consume'),
     ('isotp/protocol.py', 'TransportLayerLogic', '_make_tx_msg'),
     ('isotp/protocol.py', 'TransportLayerLogic', '_pad_message_data'),
     ('isotp/protocol.py', 'TransportLayerLogic', 'stop_sending'),
@@ -379,6 +380,12 @@ def stmt(n):
         if isinstance(n, ast.Assign):
             if len(n.targets) != 1:
                 raise Unsupported('multiple assignment')
+            v = n.value
+            if isinstance(v, ast.Call) and dotted(v.func) == 'bytearray' and len(v.args) == 1 and isinstance(v.args[0], ast.Call) \
+                    and dotted(v.args[0].func) == 'itertools.islice' and not v.keywords and not v.args[0].keywords:
+                # `x = bytearray(itertools.islice(gen, n))` pulls n values out of the generator: an effect, dumped as the statement-level call
+                # "x:=bytearray(itertools.islice)" with islice's arguments
+                return '(.expr (.call %s %s))' % (lstr('%s:=bytearray(itertools.islice)' % target(n.targets[0])), args(v.args[0].args))
             if isinstance(n.value, ast.Call) and (dotted(n.value.func) or '') in EFFECTFUL_CALLEES:
                 c = n.value
                 kws = ''.join('#' + k.arg for k in c.keywords if k.arg)
